@@ -102,7 +102,7 @@ def gen_cases(ctx, configs, probes):
     else:
         drawers = [k for k in keys if k.startswith("drawer")]
         lb = [k for k in keys if k.startswith("lbfgs")]
-        chosen = rng.sample(drawers, 2) + rng.sample(lb, 2)
+        chosen = rng.sample(drawers, 1) + rng.sample(lb, 1)
     vocab = {}
     for k in keys:
         c, r = by_key[k]
@@ -117,9 +117,9 @@ def gen_cases(ctx, configs, probes):
                 cases.append(history(c, [crash(pt, v), FULL, FULL]))
         for pt in rerun:
             for v in variants_of(pt[0]):
-                cases.append(history(c, [FULL, crash(pt, v), FULL, FULL]))
+                cases.append(history(c, [FULL, crash(pt, v), FULL]))
     # (2) random multi-crash histories over every configuration
-    n_multi = 1500 if thorough else 160
+    n_multi = 1500 if thorough else 90
     for i in range(n_multi):
         k = rng.choice(keys)
         c, _ = by_key[k]
@@ -503,8 +503,8 @@ def model_term(case_term):
     """For a replay: the model's own trace / outcome of each run of a disagreeing history."""
     return ("match (%s) with CHistory cd c runs => (fix go (tag : nat) (l : list runobs) (s : fs) := match l with [] => [] | o :: r => "
             "let '(s', out, tr) := run_spec cd c tag (o_trace o) (o_crash o) s in "
-            "(tr, out, map (fun x => (x, fd s' x)) all_roles, match fz s' with ZAbsent => 0%nat | ZPartial => 1%nat | ZFull _ => 2%nat end) :: go (S tag) r s' end) "
-            "0%nat runs empty_fs end" % case_term)
+            "(tr, out, map (fun x => (x, fd s' x)) all_roles, match fz s' with ZAbsent => 0%%nat | ZPartial => 1%%nat | ZFull _ => 2%%nat end) :: go (S tag) r s' end) "
+            "0%%nat runs empty_fs end" % case_term)
 
 
 def compact(res):
